@@ -27,6 +27,18 @@ def run(check, tier):
         L = r.randint(3, 5 if tier == "quick" else 8)
         runs = [dict(r.choice(kinds), method=r.choice(["collect_paths", "next_paths", "collect_by_line", "next_by_line"])) for _ in range(L)]
         cases.append({"runs": runs})
+    # bursts: many runs of one group inside the same second (the `.N` suffix search has to keep going)
+    nburst = 24 if tier == "quick" else 400
+    for i in range(nburst):
+        g = r.choice(S.GROUPS)
+        L = r.randint(4, 7 if tier == "quick" else 12)
+        runs = []
+        for k in range(L):
+            clock = "same" if r.random() < 0.85 else r.choice(["plus1", "same"])
+            other = r.random() < 0.15
+            runs.append({"group": (S.GROUPS[1 - S.GROUPS.index(g)] if other else g), "instance": r.choice(["new", "reused"]), "clock": clock,
+                         "method": r.choice(["collect_paths", "next_paths", "collect_by_line", "next_by_line"])})
+        cases.append({"runs": runs})
     results = run_cases("history_suite", "case_history", cases, chunk=4)
     lens = {}
     for res in results:
